@@ -3244,11 +3244,21 @@ impl ModuleSourceAndInfo {
     }
   }
 
-  pub fn source_bytes(&self) -> &[u8] {
+  /// The bytes the loader supplied, as far as they can be recovered (a byte
+  /// order mark that decoding removed is added back), because that is what
+  /// a loader verifies a checksum against.
+  pub fn source_bytes(&self) -> Cow<'_, [u8]> {
     match self {
-      Self::Json { source, .. } => source.text.as_bytes(),
-      Self::Js { source, .. } => source.text.as_bytes(),
-      Self::Wasm { source, .. } => source,
+      Self::Json { source, .. } | Self::Js { source, .. } => {
+        match source.decoded_kind {
+          DecodedArcSourceDetailKind::OnlyUtf8Bom => source
+            .try_get_original_bytes()
+            .map(|bytes| Cow::Owned(bytes.to_vec()))
+            .unwrap_or(Cow::Borrowed(source.text.as_bytes())),
+          _ => Cow::Borrowed(source.text.as_bytes()),
+        }
+      }
+      Self::Wasm { source, .. } => Cow::Borrowed(source),
     }
   }
 }
@@ -6637,7 +6647,7 @@ impl<'a, 'graph> Builder<'a, 'graph> {
           locker.set_remote_checksum(
             &specifier,
             LoaderChecksum::new(LoaderChecksum::r#gen(
-              module_source_and_info.source_bytes(),
+              &module_source_and_info.source_bytes(),
             )),
           );
         }
